@@ -47,6 +47,9 @@ def build_config(cfg, transforms):
         c["nonlinear_constraints"]["realization_filters"] = [-1]
     elif f == "cononly":
         c["nonlinear_constraints"]["realization_filters"] = [0]
+    elif f == "conmixed":        # objectives explicitly unfiltered (all weights non-zero), the constraint filtered
+        c["objectives"]["realization_filters"] = [-1, -1]
+        c["nonlinear_constraints"]["realization_filters"] = [0]
     if transforms is not None:
         # user-domain initial values such that the optimizer-domain start is POINTS[1]
         c["variables"]["initial_values"] = [x * s + o for x, s, o in zip(POINTS[1], SCALE, OFFSET)]
@@ -156,10 +159,13 @@ def run(sc, garbage):
             ugr = next((r for r in ures if isinstance(r, GradientResults)), None)
             ovars, values = [], []
             for b, r, p in labels:
-                if p == 0:
-                    ovars.append(nums(fr[b - 1].evaluations.variables, exact=True))
-                else:
-                    ovars.append(nums(gr.evaluations.perturbed_variables[r - 1, p - 1], exact=True))
+                try:
+                    if p == 0:
+                        ovars.append(nums(fr[b - 1].evaluations.variables, exact=True))
+                    else:
+                        ovars.append(nums(gr.evaluations.perturbed_variables[r - 1, p - 1], exact=True))
+                except (IndexError, AttributeError):       # a label that addresses no reported row
+                    ovars.append([num(None), num(None)])
             e["ovars"] = ovars
             for b, fres in enumerate(ufr, start=1):
                 for r in range(R):
@@ -267,7 +273,7 @@ def extra_scenarios(tier, seed):
             rw[0] = 1
         calls = [kinds[int(i)] for i in rng.integers(0, len(kinds), int(rng.integers(1, 4)))]
         out.append({"cfg": {"R": R, "P": int(rng.integers(1, 4)), "rw": rw,
-                            "filt": ["none", "sortobj", "cvarobj", "cononly"][int(rng.integers(4))],
+                            "filt": ["none", "sortobj", "cvarobj", "cononly", "conmixed"][int(rng.integers(5))],
                             "tf": bool(rng.integers(2)), "memo": ["fresh", "arrays", "object"][int(rng.integers(3))]},
                     "calls": calls, "nanreal": int(rng.integers(0, R + 1))})
     return out
